@@ -568,11 +568,30 @@ impl<'a, 'b> Gen<'a, 'b> {
 
     fn var_decl(&mut self) -> Stmt {
         let id = self.ids.next();
-        let n = 1 + if self.t.chance(50) { self.t.below(2) } else { 0 };
+        let n = 1 + if self.t.chance(if self.p.shadow { 80 } else { 50 }) { self.t.below(2) } else { 0 };
         let mut syms = Vec::new();
-        for _ in 0..n {
+        for k in 0..n {
             let arr = self.p.arrays && self.t.chance(50);
             let mut name = self.pick_decl_name();
+            if k > 0 && self.p.shadow && self.t.chance(110) {
+                // redeclare a name that an earlier initialiser of this statement reads: that read
+                // still refers to the outer declaration
+                let mut read: Vec<String> = Vec::new();
+                for s in &syms {
+                    let s: &DeclSym = s;
+                    if let Some(init) = &s.init {
+                        init.walk(&mut |x| {
+                            if let Expr::Var { name, .. } = x {
+                                read.push(name.clone());
+                            }
+                        });
+                    }
+                }
+                read.retain(|r| self.visible().iter().any(|v| v.name == *r && matches!(v.ty, Ty::Var | Ty::VarArr(_)) && v.protected.is_none()));
+                if !read.is_empty() {
+                    name = read[self.t.below(read.len())].clone();
+                }
+            }
             if syms.iter().any(|s: &DeclSym| s.name == name) {
                 // names within one declaration statement are kept distinct
                 name = self.fresh_name("v");
@@ -727,7 +746,6 @@ impl<'a, 'b> Gen<'a, 'b> {
                     Some(Stmt::Assign { id, lhs, op: AssignOp::Var, rhs, reversed: false })
                 } else {
                     let ix = self.index_expr(n, 1);
-                    self.assigned.insert(v.key);
                     let (rhs, d) = if self.p.call_bias > 0 && !self.p.helpers.is_empty() && self.t.chance(self.p.call_bias * 2) {
                         // `a[k] = h(e, ..)` with compound arguments: an element without a degree of its own
                         let (name, arity) = self.p.helpers[self.t.below(self.p.helpers.len())].clone();
@@ -740,7 +758,10 @@ impl<'a, 'b> Gen<'a, 'b> {
                         self.expr_tracked(2)
                     };
                     self.taint(v.key, d);
-                    if self.p.compound && self.t.chance(50) {
+                    // (an array filled element by element counts as assigned from its first element on;
+                    // the right-hand side above could not read it yet)
+                    self.assigned.insert(v.key);
+                    if was_assigned && self.p.compound && self.t.chance(50) {
                         let op = *self.t.pick(&[Op::Add, Op::Sub, Op::Mul]);
                         return Some(Stmt::Compound {
                             id,
